@@ -240,7 +240,7 @@ pub fn generate(seed: u64, run_idx: u64, every: u64) -> (CaseSpec, CrashOut) {
         1..=2 => crng.range(5, 16),
         _ => crng.range(12, 36),
     };
-    let spec = CaseSpec { cfg, spurious_seed: None, finish_order: 1, remove_on_drop: false, shared_truncate: false };
+    let spec = CaseSpec { cfg, spurious_seed: None, finish_order: 1, remove_on_drop: false, shared_truncate: false, late_remove: false };
     let mut orng = Rng::derive(seed, run_idx, 2);
     let mut count = 0;
     let out = run(&spec, run_idx, every, |v, c| {
